@@ -41,6 +41,37 @@ func goComparable(t *ga.Type) bool {
 	return false
 }
 
+// unnamedStructKey: does t contain a map whose key type mentions an unnamed struct?  derived Hash
+// sorts map keys with derived Compare, which refuses unnamed structs - unless a named struct type
+// with the same underlying type happens to be in the package, whose Compare goderive then reuses
+// by assignability (C08's subject).  The shared model of Hash says "unsupported" for them, so
+// they are left out here.
+func unnamedStructKey(t *ga.Type) bool {
+	var inKey func(k *ga.Type) bool
+	inKey = func(k *ga.Type) bool {
+		switch k.K {
+		case ga.KStruct:
+			return true
+		case ga.KArray:
+			return inKey(k.Elem)
+		}
+		return false
+	}
+	switch t.K {
+	case ga.KNamed, ga.KPtr, ga.KSlice, ga.KArray:
+		return t.Elem != nil && unnamedStructKey(t.Elem)
+	case ga.KMap:
+		return inKey(t.Key) || unnamedStructKey(t.Key) || unnamedStructKey(t.Elem)
+	case ga.KStruct:
+		for _, f := range t.Fields {
+			if unnamedStructKey(f.T) {
+				return true
+			}
+		}
+	}
+	return false
+}
+
 var (
 	mu   sync.Mutex
 	byGo = map[string]*ga.Type{}
@@ -216,6 +247,9 @@ func Run(cfg hx.Config) (*hx.Meta, error) {
 		Prop: "C14", Calls: calls, SupObs: "sup-c14", PoolQuick: 8, PoolThorough: 14,
 		Extra: map[string]string{"c14_drv.go": drvSource},
 		Filter: func(t *ga.Type) bool {
+			if unnamedStructKey(t) {
+				return false
+			}
 			mu.Lock()
 			byGo[t.Go(0)] = t
 			mu.Unlock()
